@@ -130,16 +130,22 @@ class ProcessWorker(Worker):
         if self._result is None:
             #assert not self._comms[0].empty()
             #self._comms.child_end.close()
+            message = None
             while True:
                 try:
-                    self._result = self._comms.parent_end.get()
+                    message = self._comms.parent_end.get()
                 except queue.Empty:
                     break
+                except Exception:
+                    # the message is there but its content cannot be recreated on this side (e.g., an exception whose class cannot
+                    # be rebuilt from its arguments, a truncated message of a killed child) - the outcome is an unreportable error
+                    logger.exception('Could not read the final message of the child')
+                    message = ((False, None), self._user_state)
 
-            if self._result is None:
+            if message is None:
                 self._result = (False, None)
             else:
-                self._result, self._user_state = self._result
+                self._result, self._user_state = message
 
         return self._result
 
